@@ -226,7 +226,27 @@ def _rng_arg(t):
     return None
 
 
+def r6_flushed_before_success(ctx):
+    """whatever write_with_padding hands to the transport is flushed before it reports success"""
+    body = co(ctx, "R04.6", S + "write_with_padding")
+    if body is None:
+        return
+    cfg = ctx.cfg(body)
+    ws = calls_norm(body, "AsyncWriteExt::write_all")
+    fl = calls_norm(body, "AsyncWriteExt::flush")
+    ok_rets = [bi for kind, bi, si, rv in body.defs().get(0, []) if kind == "assign" and rv["r"] == "aggregate" and rv["kind"].get("variant") == "Ok"]
+    if not ctx.floor("R04.6", "write_all calls in write_with_padding", len(ws), 4) or not fl or not ok_rets:
+        ctx.missing("R04.6", "flush calls / Ok returns in write_with_padding")
+        return
+    for n, w in enumerate(ws):
+        ok, p = cfg.must_pass(cfg.succ(w.bb), ok_rets, via_blocks=[f.bb for f in fl])
+        ctx.ob("R04.6", "write_with_padding:write#%d-is-flushed-before-Ok" % n, ok, w.site, "every path from this write to a success return passes a flush of the transport" if ok else
+               "a record can be written and success reported without a flush: on a transport that stages bytes (TLS when the socket would block, any buffered writer) the frame stays unsent "
+               "while the caller believes it is on its way", path=None if ok else render_path(body, p))
+
+
 def run(ctx):
+    r6_flushed_before_success(ctx)
     r1_waste_frames(ctx)
     r2_size_conversions(ctx)
     r3_conservation(ctx)
